@@ -21,7 +21,8 @@ BUDGET = {"quick": 420, "thorough": 2400}
 
 DEFAULTS = "[ defaults ]\n1 2 no 1.0 1.0\n"
 ATYPES = {"T1": "T1 72.0 0.0 A 0.47 4.0", "T2": "T2 36.0 0.0 A 0.41 2.0"}
-BONDTYPES = "[ bondtypes ]\nT1 T1 1 0.33 500\n#ifdef STIFF\nT1 T2 1 0.30 9000\n#endif\nT2 T2 1 0.29 700\n"
+BONDTYPES = ("[ bondtypes ]\nT1 T1 1 0.33 500\n#ifdef STIFF\nT1 T2 1 0.30 9000\n#else\nT1 T2 1 0.31 8000\n#endif\nT2 T2 1 0.29 700\n"
+             "#ifndef SOFT\nT2 T2 1 0.28 600\n#else\nT2 T2 1 0.27 500\n#endif\n")
 
 
 def mol_text(name, natoms):
@@ -304,8 +305,10 @@ def check_tree(cfg, mols, noise, missing_guard):
             (exp["defines"] and dt["defines"].get("M") != (["42"] if cfg.get("mval") else True)):
         bad("defines-read", f"{dt['defines']} expected {sorted(exp['defines'])}")
     bt = dt["types"].get("bonds", {})
-    want_bt = {"T1 T1": [(["1", "0.33", "500"], None)], "T1 T2": [(["1", "0.30", "9000"], {"tag": "STIFF", "condition": "ifdef"})],
-               "T2 T2": [(["1", "0.29", "700"], None)]}
+    want_bt = {"T1 T1": [(["1", "0.33", "500"], None)],
+               "T1 T2": [(["1", "0.30", "9000"], {"tag": "STIFF", "condition": "ifdef"}), (["1", "0.31", "8000"], {"tag": "STIFF", "condition": "ifndef"})],
+               "T2 T2": [(["1", "0.29", "700"], None), (["1", "0.28", "600"], {"tag": "SOFT", "condition": "ifndef"}),
+                         (["1", "0.27", "500"], {"tag": "SOFT", "condition": "ifdef"})]}
     n_inc = 2 if cfg["ff"] == "twice" else 1
     got_bt = {k: [(p, m) for p, m in v] for k, v in bt.items()}
     if {k: v for k, v in got_bt.items()} != {k: v for k, v in want_bt.items()}:
